@@ -149,7 +149,7 @@ theorem not_graphLike_of_parallel (H : Mat) (i j q q' : Nat) (hij : i ≠ j) (hq
     (h4 : hb H j q' = true) : graphLike H = false := by
   cases h : graphLike H
   · rfl
-  · exact absurd ((graphLike_ok h).1.simple i j q q' hij h1 h2 h3 h4) hq
+  · exact absurd (graphLike_simple h i j q q' hij h1 h2 h3 h4) hq
 
 /-- parallel edges of an incidence matrix, by members -/
 theorem not_graphLike_incMat {α β : Type} [DecidableEq α] [DecidableEq β] (V : List α)
